@@ -382,6 +382,18 @@ enum ImplicitMappingState {
     ///
     /// Note that this state is not set immediately (we need to have encountered the `:` to know).
     Inside,
+    /// We are inside a single-pair mapping introduced by an explicit `?` indicator.
+    ///
+    /// The parser, upon receiving the `Key`, emits the mapping events itself: no
+    /// [`FlowMappingStart`] / [`FlowMappingEnd`] token is needed for it.
+    ///
+    /// [`FlowMappingStart`]: TokenType::FlowMappingStart
+    /// [`FlowMappingEnd`]: TokenType::FlowMappingEnd
+    InsideExplicitKey,
+    /// The innermost flow collection is a `{ }` mapping.
+    ///
+    /// Its `:` and `,` belong to that mapping and never start or end an implicit one.
+    Mapping,
 }
 
 /// The YAML scanner.
@@ -442,13 +454,6 @@ pub struct Scanner<'input, T> {
     token_available: bool,
     /// Whether all characters encountered since the last newline were whitespace.
     leading_whitespace: bool,
-    /// Whether we started a flow mapping.
-    ///
-    /// This is used to detect implicit flow mapping starts such as:
-    /// ```yaml
-    /// [ : foo ] # { null: "foo" }
-    /// ```
-    flow_mapping_started: bool,
     /// An array of states, representing whether flow sequences have implicit mappings.
     ///
     /// When a flow mapping is possible (when encountering the first `[` or a `,` in a sequence),
@@ -456,8 +461,9 @@ pub struct Scanner<'input, T> {
     /// When we encounter the `:`, we know we are in an implicit mapping and can set the state to
     /// [`Inside`].
     ///
-    /// There is one entry in this [`Vec`] for each nested flow sequence that we are in.
-    /// The entries are created with the opening `]` and popped with the closing `]`.
+    /// There is one entry in this [`Vec`] for each nested flow collection that we are in (a flow
+    /// mapping is tracked as [`Mapping`](ImplicitMappingState::Mapping)).
+    /// The entries are created with the opening `[` or `{` and popped with the closing `]` or `}`.
     ///
     /// [`Possible`]: ImplicitMappingState::Possible
     /// [`Inside`]: ImplicitMappingState::Inside
@@ -515,7 +521,6 @@ impl<'input, T: Input> Scanner<'input, T> {
             tokens_parsed: 0,
             token_available: false,
             leading_whitespace: true,
-            flow_mapping_started: false,
             implicit_flow_mapping_states: vec![],
 
             buf_leading_break: String::new(),
@@ -1405,7 +1410,8 @@ impl<'input, T: Input> Scanner<'input, T> {
         self.skip_non_blank();
 
         if tok == TokenType::FlowMappingStart {
-            self.flow_mapping_started = true;
+            self.implicit_flow_mapping_states
+                .push(ImplicitMappingState::Mapping);
         } else {
             self.implicit_flow_mapping_states
                 .push(ImplicitMappingState::Possible);
@@ -1426,9 +1432,9 @@ impl<'input, T: Input> Scanner<'input, T> {
 
         if matches!(tok, TokenType::FlowSequenceEnd) {
             self.end_implicit_mapping(self.mark);
-            // We are out exiting the flow sequence, nesting goes down 1 level.
-            self.implicit_flow_mapping_states.pop();
         }
+        // We are out exiting the flow collection, nesting goes down 1 level.
+        self.implicit_flow_mapping_states.pop();
 
         let start_mark = self.mark;
         self.skip_non_blank();
@@ -2365,9 +2371,11 @@ impl<'input, T: Input> Scanner<'input, T> {
                 TokenType::BlockMappingStart,
                 start_mark,
             );
-        } else {
-            // The scanner, upon emitting a `Key`, will prepend a `MappingStart` event.
-            self.flow_mapping_started = true;
+        } else if let Some(state @ ImplicitMappingState::Possible) =
+            self.implicit_flow_mapping_states.last_mut()
+        {
+            // The parser, upon receiving a `Key`, will prepend a `MappingStart` event.
+            *state = ImplicitMappingState::InsideExplicitKey;
         }
 
         self.remove_simple_key()?;
@@ -2426,8 +2434,10 @@ impl<'input, T: Input> Scanner<'input, T> {
     fn fetch_value(&mut self) -> ScanResult {
         let sk = self.simple_keys.last().unwrap().clone();
         let start_mark = self.mark;
-        let is_implicit_flow_mapping =
-            !self.implicit_flow_mapping_states.is_empty() && !self.flow_mapping_started;
+        let is_implicit_flow_mapping = matches!(
+            self.implicit_flow_mapping_states.last(),
+            Some(ImplicitMappingState::Possible | ImplicitMappingState::Inside)
+        );
         if is_implicit_flow_mapping {
             *self.implicit_flow_mapping_states.last_mut().unwrap() = ImplicitMappingState::Inside;
         }
@@ -2632,11 +2642,16 @@ impl<'input, T: Input> Scanner<'input, T> {
     /// [`implicit_flow_mapping_states`]: Self::implicit_flow_mapping_states
     fn end_implicit_mapping(&mut self, mark: Marker) {
         if let Some(implicit_mapping) = self.implicit_flow_mapping_states.last_mut() {
-            if *implicit_mapping == ImplicitMappingState::Inside {
-                self.flow_mapping_started = false;
-                *implicit_mapping = ImplicitMappingState::Possible;
-                self.tokens
-                    .push_back(Token(Span::empty(mark), TokenType::FlowMappingEnd));
+            match *implicit_mapping {
+                ImplicitMappingState::Inside => {
+                    *implicit_mapping = ImplicitMappingState::Possible;
+                    self.tokens
+                        .push_back(Token(Span::empty(mark), TokenType::FlowMappingEnd));
+                }
+                ImplicitMappingState::InsideExplicitKey => {
+                    *implicit_mapping = ImplicitMappingState::Possible;
+                }
+                ImplicitMappingState::Possible | ImplicitMappingState::Mapping => {}
             }
         }
     }
